@@ -110,6 +110,7 @@ func scenarioC05(r *Run) {
 	ka()
 	cycles := poolSize + 2 + r.Ch.Choose(3, "extra-cycles")
 	kinds := map[string]bool{}
+	quietDone := false
 	for c := 0; c < cycles && r.AgentAlive() && len(r.Violations) == 0; c++ {
 		if !p.Associated {
 			p.AnswerHeartbeats, keepAlive = true, true
@@ -193,8 +194,10 @@ func scenarioC05(r *Run) {
 		}
 		if r.Ch.Choose(3, "rejmod") == 1 {
 			// a modification that fails half-way: remove an existing PDR and an unknown one
-			mr := p.Modify(s, &ModSpec{Tag: "rP+unknown", RemovePDR: []uint16{s.PDRs[len(s.PDRs)-1].ID, 99}})
-			r.Op("  modify removing PDR %d and unknown PDR 99 -> accepted=%v", s.PDRs[len(s.PDRs)-1].ID, mr.Accepted)
+			// removal only, of any PDR (also one that is not the last of the list), then an unknown one
+			victim := s.PDRs[r.Ch.Choose(len(s.PDRs), "rej-victim")].ID
+			mr := p.Modify(s, &ModSpec{Tag: "rP+unknown", RemovePDR: []uint16{victim, 99}})
+			r.Op("  modify removing PDR %d and unknown PDR 99 -> accepted=%v", victim, mr.Accepted)
 			r.Skel("rejected-mod")
 			if mr.Accepted {
 				// both "removed": keep our copy in step
@@ -206,6 +209,15 @@ func scenarioC05(r *Run) {
 		r.Op("cycle %d: session cp=%d up=%d established (ue=%v teids=%v); ending: %s", c, s.CPSEID, up, s.PDRs[1].GotUEIP, teids, ending)
 		r.Skel("end:" + ending)
 		kinds[ending] = true
+		if !quietDone && !lossy && ending != "deletion" && r.Ch.Choose(5, "long-quiet") == 1 {
+			// nothing touches the datapath for more than grpc's idle timeout: the
+			// channel to BESS reads IDLE (not READY) when the session ends, while
+			// BESS is up and populated
+			quietDone = true
+			r.Sim.RunFor(31 * time.Minute)
+			r.Fault("datapath-channel-idle-before-ending")
+			r.Skel("quiet-31min")
+		}
 		switch ending {
 		case "deletion":
 			var dr DelResult
